@@ -49,9 +49,10 @@ func keyValueFromBytes(t *rm.Type, kb []byte) *rm.Value {
 }
 
 // c12Key checks one key (given as text bytes, or the big-endian image of a numeric key) in one mode:
-//   factory : the exported New…MessageBy… function
-//   decode  : a full Decode of the D-base wire with the key spliced in
-//   fill    : Encode with a nil body/extension (only where the encoder fills it in)
+//
+//	factory : the exported New…MessageBy… function
+//	decode  : a full Decode of the D-base wire with the key spliced in
+//	fill    : Encode with a nil body/extension (only where the encoder fills it in)
 func c12Key(t *rm.Type, kb []byte, mode string) (v *ev.Violation) {
 	defer func() {
 		if p := recover(); p != nil {
